@@ -148,24 +148,57 @@ Theorem C17_intervals_within_series : forall ni mi sl draws, (1 <= mi)%Z -> (mi 
 Proof. exact get_intervals_within. Qed.
 Print Assumptions C17_intervals_within_series.
 
-(* time series forest: for ANY fitted trees returning probability rows, the forest's row is a
-   probability row whose entries are the means of the trees' entries on (mean, variance, slope) of
-   each tree's own intervals; the series enters only through those features *)
-Theorem C17_tsf_proba_is_mean_of_trees_on_features : forall k forest x,
-  forest <> [] ->
-  (forall m, In m forest -> is_dist k (snd m (tsf_features (fst m) x))) ->
-  (is_dist k (tsf_proba k forest x) /\
-   forall j, (j < k)%nat ->
-     nth j (tsf_proba k forest x) 0 ==
-     qsum (map (fun m => nth j (snd m (tsf_features (fst m) x)) 0) forest) / qlen forest) /\
-  (forall x', (forall m, In m forest -> tsf_features (fst m) x = tsf_features (fst m) x') ->
-              tsf_proba k forest x = tsf_proba k forest x').
+(* time series forest: for ANY fitted trees - each with its own classes_ (a sub-set of the
+   forest's: a tree fitted on a bootstrap bag may have missed a class) returning a probability row
+   over ITS classes - the forest's row is a probability row over the forest's classes_ whose
+   column for class c is the mean over the trees of the tree's own probability for c (0 from a
+   tree that never saw c: columns are placed by label through the tree's classes_, never by
+   position), computed on (mean, variance, slope) of each tree's own intervals; the series enters
+   only through those features *)
+Theorem C17_tsf_proba_is_mean_of_trees_on_features :
+  forall (L : Type) (eqb : L -> L -> bool), (forall a b, eqb a b = true <-> a = b) ->
+  forall classes (forest : list (fmember L)) x,
+  forest <> [] -> NoDup classes ->
+  (forall m, In m forest ->
+     NoDup (tree_classes m) /\ incl (tree_classes m) classes /     is_dist (length (tree_classes m)) (tree_row m x)) ->
+  (is_dist (length classes) (tsf_proba eqb classes forest x) /   forall j c, nth_error classes j = Some c ->
+     nth j (tsf_proba eqb classes forest x) 0 ==
+     qsum (map (fun m => prob_or0 eqb (tree_classes m) (tree_row m x) c) forest) / qlen forest) /  (forall m c, In m forest ->
+     (~ In c (tree_classes m) -> prob_or0 eqb (tree_classes m) (tree_row m x) c = 0) /     (forall i p, nth_error (tree_classes m) i = Some c -> nth_error (tree_row m x) i = Some p ->
+                  prob_or0 eqb (tree_classes m) (tree_row m x) c = p)) /  (forall x', (forall m, In m forest -> tsf_features (fst m) x = tsf_features (fst m) x') ->
+              tsf_proba eqb classes forest x = tsf_proba eqb classes forest x').
 Proof.
-  intros k forest x H1 H2. split.
+  intros L eqb Hspec classes forest x H1 Hnd H2. split; [|split].
   - apply tsf_proba_is_mean_of_trees_on_features; assumption.
+  - intros m c Hm. destruct (H2 m Hm) as (Hn & _ & _). split.
+    + apply prob_or0_unseen. exact Hspec.
+    + intros i p Hc Hp. eapply prob_or0_seen; eauto.
   - intro x'. apply tsf_proba_depends_on_features_only.
 Qed.
 Print Assumptions C17_tsf_proba_is_mean_of_trees_on_features.
+
+(* trees fitted on the whole training set (TimeSeriesForestClassifier, RISE) all carry the forest's
+   classes_: placing is the identity and column j is the plain mean of the trees' columns j *)
+Theorem C17_forest_of_full_trees_is_plain_mean :
+  forall (L : Type) (eqb : L -> L -> bool), (forall a b, eqb a b = true <-> a = b) ->
+  forall classes (forest : list (fmember L)) x, NoDup classes ->
+  (forall m, In m forest -> tree_classes m = classes /\ length (tree_row m x) = length classes) ->
+  tsf_proba eqb classes forest x = mean_rows (length classes) (map (fun m => tree_row m x) forest).
+Proof. exact tsf_proba_full_trees. Qed.
+Print Assumptions C17_forest_of_full_trees_is_plain_mean.
+
+(* placing a tree's row by the tree's classes_ keeps it a probability row and loses no mass *)
+Theorem C17_placed_tree_row_is_distribution :
+  forall (L : Type) (eqb : L -> L -> bool), (forall a b, eqb a b = true <-> a = b) ->
+  forall classes tcls row, NoDup classes -> NoDup tcls -> incl tcls classes ->
+  is_dist (length tcls) row ->
+  is_dist (length classes) (place_row eqb classes tcls row) /  qsum (place_row eqb classes tcls row) == qsum row.
+Proof.
+  intros L eqb Hspec classes tcls row H1 H2 H3 H4. split.
+  - apply place_row_is_dist; assumption.
+  - apply place_row_sum; try assumption. destruct H4 as (Hl & _). exact Hl.
+Qed.
+Print Assumptions C17_placed_tree_row_is_distribution.
 
 (* forest regressor: the prediction is the mean of the trees' predictions, hence within their range *)
 Theorem C17_tsf_regressor_is_mean_of_trees : forall forest x lo hi,
@@ -198,6 +231,17 @@ Print Assumptions C17_column_ensemble_is_mean_of_members.
 (* non-vacuity: three members with weights 1/2, 1/4, 1/4 voting "b", "a", "b" over the training
    labels ["b";"a";"c";"b"] (strings as code points): classes_ = a, b, c; row = 1/4, 3/4, 0; the
    prediction is "b"; against the truth "b" the score is 1; and the slope of 1,3,5,7 is 2 *)
+(* non-vacuity of the forest theorem: classes_ = [-3; 7; 42]; one tree saw all three classes, one
+   tree's bag missed 42, one missed -3; both short rows are placed by label and the forest's row is
+   the mean of the three placed rows *)
+Example C17_forest_nonvacuous :
+  let cl := [LInt (-3); LInt 7; LInt 42] in
+  let t1 : fmember label := ([], (cl, fun _ => [1 # 2; 1 # 4; 1 # 4])) in
+  let t2 : fmember label := ([], ([LInt (-3); LInt 7], fun _ => [1 # 4; 3 # 4])) in
+  let t3 : fmember label := ([], ([LInt 7; LInt 42], fun _ => [1; 0])) in
+  map Qred (tsf_proba label_eqb cl [t1; t2; t3] []) = [1 # 4; 2 # 3; 1 # 12] /  place_row label_eqb cl [LInt 7; LInt 42] [1; 0] = [0; 1; 0].
+Proof. cbv zeta. split; reflexivity. Qed.
+
 Example C17_nonvacuous :
   let a := LStr [97%Z] in let b := LStr [98%Z] in let c := LStr [99%Z] in
   let classes := classes_of label_leb label_eqb [b; a; c; b] in
